@@ -130,3 +130,20 @@ fn k_box_downcast() {
     kani::cover!(x == 9);
     core::mem::forget(b);
 }
+
+/// a boxed slice made from a vector with spare capacity keeps its contents when the arena is used afterwards (C17/C13)
+#[kani::proof]
+#[kani::unwind(20)]
+#[kani::stub(Bump::alloc_layout_slow, no_slow)]
+fn k_box_from_vec_then_alloc() {
+    let b = mk_bump::<1>(448);
+    let vals: [u32; 2] = kani::any();
+    let mut v: Vec<u32> = Vec::with_capacity_in(8, &b);
+    v.push(vals[0]); v.push(vals[1]);
+    let bs = v.into_boxed_slice();
+    let later = b.alloc_slice_fill_copy(16, 0xEEEEEEEEu32);
+    assert!(bs.len() == 2 && bs[0] == vals[0] && bs[1] == vals[1], "C17 boxed slice intact after later allocations");
+    assert!(later[0] == 0xEEEEEEEE && later[15] == 0xEEEEEEEE);
+    kani::cover!(true);
+    core::mem::forget(bs); core::mem::forget(b);
+}
